@@ -629,10 +629,14 @@ class PathAccount:
         self.raises = []
         self.other_list_ops = []  # (list, method, node)
         self.new_values = []
+        self.label_writes = []    # nodes of writes into the label table that are not `labels.update(..)` (labels[k] = v, labels[k] -= d, ...)
 
 
 def parse_label_update(arg):
     """labels.update({k: v - D for k, v in labels.items() if v > P}) -> dict or None"""
+    if arg[0] == 'comp' and len(arg) >= 6 and arg[2][0] == 'tuple' and len(arg[2][1]) == 2:
+        # labels.update((k, v - d) for k, v in labels.items() if ..): the same update given as pairs
+        arg = ('dictcomp', arg[2][1][0], arg[2][1][1], arg[3], arg[4], arg[5])
     if arg[0] != 'dictcomp':
         return None
     key, val, names, it, ifs = arg[1], arg[2], arg[3], arg[4], arg[5]
@@ -640,6 +644,13 @@ def parse_label_update(arg):
     if len(nm) != 2:
         return None
     kvar, vvar = ('var', nm[0]), ('var', nm[1])
+    if val[0] == 'ifexp' and not ifs and val[1][0] == 'cmp':
+        # {k: (v - d if v > p else v) ...}: rewriting the other labels with their own value is the filter
+        flip = {'<': '>=', '>': '<=', '<=': '>', '>=': '<', '==': '!=', '!=': '=='}
+        if val[3] == vvar:
+            val, ifs = val[2], (val[1],)
+        elif val[2] == vvar and val[1][1] in flip:
+            val, ifs = val[3], (('cmp', flip[val[1][1]], val[1][2], val[1][3]),)
     out = {'key_ok': key == kvar, 'iter': it, 'ifs': ifs}
     if val[0] == 'bin' and val[1] == '-' and val[2] == vvar:
         out['delta'] = val[3]
@@ -672,7 +683,12 @@ def account(path, result_list, labels_name='labels'):
         k = ev[0]
         if k == 'mcall':
             recv, meth, args, kwargs, node = ev[1], ev[2], ev[3], ev[4], ev[5]
-            if meth in ('append', 'extend') and recv[0] in ('lv', 'name', 'list'):
+            if meth == 'extend' and recv[0] in ('lv', 'name', 'list') and args and args[0][0] in ('list', 'tuple') \
+                    and not any(x[0] == 'star' for x in args[0][1]):
+                # RESULT.extend([a, b])  is  RESULT.append(a); RESULT.append(b)
+                for x in args[0][1]:
+                    acc.appended.append((recv, x, node, 'append'))
+            elif meth in ('append', 'extend') and recv[0] in ('lv', 'name', 'list'):
                 acc.appended.append((recv, args[0] if args else None, node, meth))
             elif meth == 'update' and recv == ('name', labels_name):
                 acc.label_updates.append({'arg': args[0] if args else None, 'node': node, 'index': i,
@@ -680,10 +696,20 @@ def account(path, result_list, labels_name='labels'):
             elif meth in ('insert', 'sort', 'reverse', 'pop', 'remove', 'clear') and recv[0] in ('lv', 'name'):
                 acc.other_list_ops.append((recv, meth, node))
         elif k == 'aug':
+            if ev[2] == '+' and isinstance(ev[3], tuple) and ev[3] and ev[3][0] in ('list', 'tuple') and ev[1] == result_list \
+                    and not any(x[0] == 'star' for x in ev[3][1]):
+                # RESULT += [a, b]  is  RESULT.append(a); RESULT.append(b)
+                for x in ev[3][1]:
+                    acc.appended.append((('lv', ev[1]), x, ev[4], 'append'))
+                continue
             acc.advances.append((ev[1], ev[2], ev[3], ev[4], i))
         elif k == 'setitem':
             if ev[1] == ('name', labels_name):
                 acc.label_sets.append((ev[2], ev[3], ev[4], i))
+                acc.label_writes.append(ev[4])
+        elif k == 'augstore':
+            if isinstance(ev[1], tuple) and ev[1] and ev[1][0] == 'sub' and ev[1][1] == ('name', labels_name):
+                acc.label_writes.append(ev[4])
         elif k == 'value':
             v = ev[1]
             if v[0] == 'mcall' and v[2] == 'eval':
